@@ -87,6 +87,7 @@ type header struct {
 	intercepts map[string]string // ssa function name -> harness function
 	interpret  []string          // extra packages to interpret
 	deny       []string
+	overlays   map[string]string // repo-relative path -> file (relative to the verif root)
 }
 
 func readHeader(file string) (*header, []byte) {
@@ -94,7 +95,7 @@ func readHeader(file string) (*header, []byte) {
 	if err != nil {
 		fatal("read harness: %v", err)
 	}
-	h := &header{intercepts: map[string]string{}}
+	h := &header{intercepts: map[string]string{}, overlays: map[string]string{}}
 	for _, l := range strings.Split(string(src), "\n") {
 		l = strings.TrimSpace(l)
 		if !strings.HasPrefix(l, "//verif:") {
@@ -109,6 +110,9 @@ func readHeader(file string) (*header, []byte) {
 			h.pkgDir = f[1]
 		case "intercept":
 			h.intercepts[strings.Join(f[1:len(f)-1], " ")] = f[len(f)-1]
+		case "overlay":
+			k := strings.SplitN(f[1], "=", 2)
+			h.overlays[k[0]] = k[1]
 		case "interpret":
 			h.interpret = append(h.interpret, f[1:]...)
 		case "deny":
@@ -158,6 +162,14 @@ func load(o *options) *loaded {
 	ov := map[string][]byte{
 		filepath.Join(o.repo, "zz_verif/nondet/nondet.go"):      nd,
 		filepath.Join(o.repo, hdr.pkgDir, "zz_verif_harness.go"): src,
+	}
+	verifRoot := filepath.Dir(filepath.Dir(filepath.Dir(o.harness))) // harness/<id>/<file>
+	for rel, f := range hdr.overlays {
+		b, err := os.ReadFile(filepath.Join(verifRoot, f))
+		if err != nil {
+			fatal("read overlay: %v", err)
+		}
+		ov[filepath.Join(o.repo, rel)] = b
 	}
 	for _, e := range o.extra {
 		k := strings.SplitN(e, "=", 2)
